@@ -279,7 +279,7 @@ func c02Methods(c *run.Ctx) {
 			field, op = "find", "mutation"
 			args = []argSpec{{name: "artist", typ: "String", val: sval()}, {name: "album", typ: "String", val: sval()}, {name: "title", typ: "String", val: sval()}, {name: "year", typ: "Int", val: ival() % 3000}}
 			expect = func(a map[string]interface{}) interface{} {
-				return zr.Mutation.FindTrack(a["title"].(string), a["year"].(int), a["artist"].(string), a["album"].(string))
+				return zr.Mutation.FindTrack(a["title"].(string), a["artist"].(string), a["album"].(string), a["year"].(int))
 			}
 		default:
 			field, op = "renamed", "mutation"
